@@ -87,6 +87,11 @@ def run(ctx):
                                                      force_float_first=hist and cid[1] % 4 != 3,   # 2^18-resolution channel on the histogram sheet
                                                      zero_fraction_first=cid[1] % 3 == 1 or cid[1] % 6 == 3,            # a row whose gate keeps no event
                                                      id_style='plain' if cid[1] % 6 not in (0, 4) else 'free')       # identifiers with dots / blanks (one plotted workbook)
+        if plot and len(btab) and cid[1] % 6 == 0:
+            # the same beads file listed twice with the same settings under two identifiers (two lots measured once, a
+            # replicate row): each row has its own result cells and its own figure files
+            last_ = btab.index[-1]
+            btab.loc['%s again' % last_ if cid[1] % 12 else '%s_2' % last_] = btab.loc[last_]
         # clustering channels: 1, 2 or 3 of the instrument's fluorescence channels
         for bid in btab.index:
             fl = [c.strip() for c in itab.at[btab.at[bid, 'Instrument ID'], 'Fluorescence Channels'].split(',')]
@@ -102,6 +107,18 @@ def run(ctx):
         np.random.seed(int(rng.integers(1 << 30)))
         rows = len(btab) + len(stab)
         budget = int(8e6 + 6e6 * rows)
+        if plot and cid[1] % 6 == 3:
+            # history: the same workbook was analysed before in this process with other options (no plots, other sheets,
+            # another output path); what THIS run writes does not depend on that
+            import contextlib
+            import io
+            with warnings.catch_warnings(), contextlib.redirect_stdout(io.StringIO()):
+                warnings.simplefilter('ignore')
+                core.attempt(E.run, input_path=inp, output_path=os.path.join(base, 'earlier_out.xlsx'), verbose=False, plot=False,
+                             hist_sheet=not hist)
+            ctx.counters['chk:history:earlier-run'] += 1
+            d['earlier_run'] = True
+            np.random.seed(int(rng.integers(1 << 30)))
         with warnings.catch_warnings():
             warnings.simplefilter('ignore')
             with reach.StepCounter(core.repo_root(), budget=budget) as sc:
